@@ -169,6 +169,8 @@ void sample_states(const char *where) {
                     for (int e : sd.eligible) if (e == s.idx && !sd.delivered.count(e)) sd.dead.insert(e);
                 s.pills_pending = 0;
                 s.pill_wildcard = false;
+                s.pending = 0;
+                s.pending_exact = true;
             }
             if ((old == ST_IDLE || old == ST_STOPPED) && st == ST_RUNNING) s.enter_running_from_rest++;
             if ((old == ST_RUNNING || old == ST_PAUSED) && st == ST_STOPPED) s.leave_active++;
@@ -329,6 +331,7 @@ static void handle_evt(m_mod_t *self, const m_queue_t *evts, int hidx) {
     d.in_unstash = g_unstash_depth > 0;
     if (!(s.flags & M_MOD_DENY_CTX)) d.ctx_looping = ctx_is_looping_probe(&d.looping_known);
     d.loop_run = W->loops.empty() ? 0 : W->loops.back().id;
+    std::vector<int> eof_fds;
     for (m_queue_itr_t *it = m_queue_itr_new(evts); it; m_queue_itr_next(&it)) {
         const m_evt_t *e = (const m_evt_t *)m_queue_itr_get_data(it);
         EvtObs o;
@@ -337,12 +340,20 @@ static void handle_evt(m_mod_t *self, const m_queue_t *evts, int hidx) {
         if (o.type == M_SRC_TYPE_FD && R->k.is_open(o.fd)) {
             // consume what the environment wrote so a level-triggered descriptor does not fire forever
             char buf[256];
-            while (R->k.k_read(o.fd, buf, sizeof buf, sim::OWN_USER) > 0) {}
+            long got;
+            while ((got = R->k.k_read(o.fd, buf, sizeof buf, sim::OWN_USER)) > 0) {}
+            if (got == 0) eof_fds.push_back(o.fd);   // peer hung up: stop watching it (below)
         }
     }
     W->n_deliveries++;
     sim::tr("deliver", slot, hidx, (long)d.evts.size());
     orc_delivery(d);
+    for (int fd : eof_fds)
+        for (size_t k = 0; k < W->ufds.size(); k++)
+            if (W->ufds[k].first == fd) {
+                Op u; u.where = "D"; u.name = "unsrc_fd"; u.a = {(long)slot, (long)k, 0};
+                exec_op(u, true, slot);
+            }
     W->cur_delivery.push_back(&d);
     run_script(slot, CB_EVT, n);
     W->cur_delivery.pop_back();
@@ -428,6 +439,8 @@ static void loop_end(int rc) {
         bool maybe = sl.st == ST_PAUSED || sl.last_non_running_gseq > W->last_real_poll_gseq;
         if (!maybe) continue;
         sl.pills_pending = 0;
+        if (sl.st == ST_PAUSED && sl.last_non_running_gseq <= W->last_real_poll_gseq) sl.pending = 0;   // PAUSED throughout the flush: discarded for sure
+        else sl.pending_exact = false;
         for (auto &sd : W->sends)
             for (int e : sd.eligible)
                 if (e == sl.idx && !sd.delivered.count(e) && !sd.dead.count(e)) sd.unknown.insert(e);
@@ -673,14 +686,23 @@ void exec_op(const Op &op, bool in_cb, int cb_slot) {
         size_t b = n == "env_at" ? 1 : 0;
         long kind = op.arg(b), x = op.arg(b + 1), y = op.arg(b + 2);
         auto act = [kind, x, y]() {
-            switch (kind % 5) {
+            switch (kind % 6) {
+            case 5: {   // the peer of user descriptor x goes away
+                if (W->ufds.empty()) break;
+                int k = (int)(((x % (long)W->ufds.size()) + W->ufds.size()) % W->ufds.size());
+                if (W->ufds[k].second >= 0 && R->k.is_open(W->ufds[k].second) && R->k.fds[W->ufds[k].second].owner == sim::OWN_USER) {
+                    R->k.k_close(W->ufds[k].second, sim::OWN_USER);
+                    W->ufds[k].second = -1;
+                }
+                break;
+            }
             case 0: {
                 if (W->ufds.empty()) break;
                 int k = (int)(((x % (long)W->ufds.size()) + W->ufds.size()) % W->ufds.size());
                 char buf[64];
                 memset(buf, 'e', sizeof buf);
                 long cnt = std::max(1L, std::min(64L, y));
-                if (R->k.is_open(W->ufds[k].second)) R->k.k_write(W->ufds[k].second, buf, (size_t)cnt, sim::OWN_USER);
+                if (W->ufds[k].second >= 0 && R->k.is_open(W->ufds[k].second) && R->k.fds[W->ufds[k].second].owner == sim::OWN_USER) R->k.k_write(W->ufds[k].second, buf, (size_t)cnt, sim::OWN_USER);
                 break;
             }
             case 1: R->k.env_raise_signal((int)(1 + (x % 30 + 30) % 30)); break;
@@ -798,6 +820,7 @@ void exec_op(const Op &op, bool in_cb, int cb_slot) {
             }
             s.sub_history.push_back({topic, id});
             if (fl & M_SRC_ONESHOT) s.oneshot_sub_uds.insert(id);
+            if (op.arg(1) >= 100) s.pending_exact = false;   // system notifications will share the mailbox
             SubM sm;
             sm.topic = topic;
             sm.flags = fl;
@@ -862,7 +885,10 @@ void exec_op(const Op &op, bool in_cb, int cb_slot) {
         if (n == "src_fd" || n == "unsrc_fd") {
             if (W->ufds.empty()) return;
             int k = (int)(((op.arg(1) % (long)W->ufds.size()) + W->ufds.size()) % W->ufds.size());
-            if (!R->k.is_open(W->ufds[k].first) || R->k.fds[W->ufds[k].first].owner != sim::OWN_USER) make_ufd(k);   // previous descriptor was auto-closed: use a fresh one
+            if (!R->k.is_open(W->ufds[k].first) || R->k.fds[W->ufds[k].first].owner != sim::OWN_USER) {   // previous descriptor was auto-closed: use a fresh one
+                if (W->ufds[k].second >= 0 && R->k.is_open(W->ufds[k].second) && R->k.fds[W->ufds[k].second].owner == sim::OWN_USER) R->k.k_close(W->ufds[k].second, sim::OWN_USER);
+                make_ufd(k);
+            }
             int fd = W->ufds[k].first;
             if (n == "src_fd") {
                 unsigned fl = src_flags_from(op.arg(2) & (1 | 2 | 4 | 8 | 16 | 32));
@@ -1097,18 +1123,20 @@ static void do_send(int kind, int from, int to, long topic_idx, bool autofree, i
             for (auto &o : W->slots) {
                 if (o.st != ST_RUNNING && o.st != ST_PAUSED) continue;
                 if (kind == 2) { sd.eligible.push_back(o.idx); continue; }
-                bool match = false;
+                bool match = false, oneshot = false;
                 for (auto &kv : o.subs) {
-                    if (kv.first == topic) match = true;
-                    else if (kv.second.re_ok && regexec(&kv.second.re, topic, 0, nullptr, 0) == 0) match = true;
-                    if (match) break;
+                    bool m1 = kv.first == topic || (kv.second.re_ok && regexec(&kv.second.re, topic, 0, nullptr, 0) == 0);
+                    if (m1) { match = true; if (kv.second.flags & M_SRC_ONESHOT) oneshot = true; }
                 }
                 if (match) sd.eligible.push_back(o.idx);
+                if (match && oneshot) sd.oneshot_matched.insert(o.idx);
             }
         }
         bool known = false;
         sd.ctx_looping = (s.flags & M_MOD_DENY_CTX) ? false : ctx_is_looping_probe(&known);
-        sd.in_flush = !W->cur_delivery.empty() && W->cur_delivery.back()->looping_known && !W->cur_delivery.back()->ctx_looping && !W->loops.empty() && !W->loops.back().ended;
+        // final-flush phase: inside the loop/dispatch call, the loop run not yet over, but the context no longer LOOPING
+        sd.in_flush = (frame_on_stack_any("loop") || frame_on_stack_any("dispatch")) && known && !sd.ctx_looping && !W->loops.empty() && !W->loops.back().ended;
+        if (!W->cur_delivery.empty() && W->cur_delivery.back()->looping_known && !W->cur_delivery.back()->ctx_looping && !W->loops.empty() && !W->loops.back().ended) sd.in_flush = true;
         sd.loop_run = W->loops.empty() ? 0 : W->loops.back().id;
         uint64_t full_before = R->ctr.faults.count("pipe_full") ? R->ctr.faults["pipe_full"] : 0;
         ApiScope a(kind == 0 ? "tell" : kind == 1 ? "pub" : kind == 2 ? "bcast" : "pill", kind == 3 ? to : from);
@@ -1121,7 +1149,21 @@ static void do_send(int kind, int from, int to, long topic_idx, bool autofree, i
         sd.gseq = R->gseq;
         sd.rc = rc;
         uint64_t full_after = R->ctr.faults.count("pipe_full") ? R->ctr.faults["pipe_full"] : 0;
-        if (full_after > full_before) { sd.overflow = sd.eligible; R->ctr.probe("send_hit_full_pipe"); }
+        {
+            // whose mailbox was full? exact when the mirror can count what is in each mailbox (>= 8192 messages fit),
+            // otherwise fall back to "some write hit a full pipe during this call: no obligation for anybody"
+            bool all_exact = true, any_full = false;
+            for (int e : sd.eligible) { if (!W->slots[e].pending_exact) all_exact = false; if (W->slots[e].pending >= 8192) any_full = true; }
+            bool kernel_full = full_after > full_before;
+            if (kernel_full) R->ctr.probe("send_hit_full_pipe");
+            if (all_exact && kernel_full == any_full) {
+                for (int e : sd.eligible) if (W->slots[e].pending >= 8192) sd.overflow.push_back(e);
+            } else if (kernel_full || any_full) {
+                sd.overflow = sd.eligible;
+                for (int e : sd.eligible) W->slots[e].pending_exact = false;
+            }
+            if (rc == 0) for (int e : sd.eligible) if (!std::count(sd.overflow.begin(), sd.overflow.end(), e)) W->slots[e].pending++;
+        }
         if (rc != 0) {
             sd.eligible.clear();
         } else if (kind == 3) {
